@@ -13,7 +13,7 @@ from twisted.application import service
 from twisted.internet import reactor
 
 from zope.interface import implementer
-from allmydata.interfaces import RIStorageServer, IStatsProducer
+from allmydata.interfaces import RIStorageServer, IStatsProducer, DataTooLargeError
 from allmydata.util import fileutil, idlib, log, time_format
 import allmydata # for __full_version__
 
@@ -672,6 +672,16 @@ class StorageServer(service.MultiService):
         )
 
         if testv_is_good:
+            # Refuse a request that cannot be applied in full before any
+            # share is touched: a failure part-way through would leave the
+            # earlier shares (and earlier vectors) written.
+            for (_, datav, new_length) in test_and_write_vectors.values():
+                if new_length == 0:
+                    continue
+                for (offset, data) in datav:
+                    if offset + len(data) > MutableShareFile.MAX_SIZE:
+                        raise DataTooLargeError()
+
             # now apply the write vectors
             remaining_shares = self._evaluate_write_vectors(
                 bucketdir,
